@@ -349,7 +349,7 @@ func scenExpiryWhileBlocked(endpoint string, lifetime time.Duration) *Case {
 			// data that only the token's own policy makes readable (default policy is deny)
 			c.Oracle = fmt.Sprintf("expired-token-honoured-in-blocking-query: %s returned %v computed %d ms after the token's expiration",
 				endpoint, data, tTrig.Sub(exp).Milliseconds())
-			c.Sig = map[string]any{"kind": "expired-token-honoured-in-blocking-query", "endpoint": endpoint}
+			c.Sig = map[string]any{"kind": "expired-token-honoured-in-blocking-query", "endpoint": endpoint, "authorizer": style}
 		}
 	}
 	return c
